@@ -30,14 +30,16 @@ package dirreader
 
 //@ func readLines
 //@   requires ctx != nil && reader != nil && lines != nil
+//@   modifies chans, readers
+//@   allocates
 //@   ensures[reader] rdcount == old(rdcount) + 1
-//@   ensures[bytes] result0 == rdgood(lastreader)
+//@   ensures[bytes] result0 == rdgood(lastreader) && result0 >= 0 && result0 <= 4611686018427387904
 //@   ensures[lines] forall k int :: old(sentlen(lines)) <= k && k < sentlen(lines) ==> LineOf(lines, k, lastreader, old(sentlen(lines)))
 //@   ensures[all] result1 == nil ==> sentlen(lines) - old(sentlen(lines)) == rdrec(lastreader)
 //@   ensures[atmostone] sentlen(lines) - old(sentlen(lines)) == rdrec(lastreader) || sentlen(lines) - old(sentlen(lines)) + 1 == rdrec(lastreader)
 //@   ensures[err] result1 != nil ==> cancelled(ctx) || result1 == rdlasterr(lastreader)
 //@   loop readLines#1 invariant[reader] bufioReader != nil && bufioReader == lastreader && rdcount == old(rdcount) + 1
-//@   loop readLines#1 invariant[bytes] numBytesRead == rdgood(bufioReader) && numBytesRead >= 0
+//@   loop readLines#1 invariant[bytes] numBytesRead == rdgood(bufioReader) && numBytesRead >= 0 && numBytesRead <= 4611686018427387904
 //@   loop readLines#1 invariant[count] sentlen(lines) - old(sentlen(lines)) == rdrec(bufioReader) && sentlen(lines) >= old(sentlen(lines))
 //@   loop readLines#1 invariant[lines] forall k int :: old(sentlen(lines)) <= k && k < sentlen(lines) ==> LineOf(lines, k, bufioReader, old(sentlen(lines)))
 
@@ -79,7 +81,7 @@ package dirreader
 //@ pred StartOff(o) := ite(o.lastSz < old(o.lastSz), 0, old(o.offset))
 
 //@ func (*rotatingFile).read
-//@   requires o != nil && ctx != nil && o.lines != nil && o.openFn != nil && o.offset >= 0 && o.offset <= 4611686018427387904
+//@   requires o != nil && ctx != nil && o.lines != nil && o.openFn != nil && o.offset >= 0 && o.offset < 4611686018427387904
 //@   assert_at statReadSeekCloser.Seek[start] whence == 0 && offset == StartOff(o)
 //@   ensures[reset] Resets(op) ==> result == nil && o.offset == 0 && o.lastSz == old(o.lastSz) && sentlen(o.lines) == old(sentlen(o.lines))
 //@   ensures[ignore] !Resets(op) && op != 2 ==> result == nil && o.offset == old(o.offset) && o.lastSz == old(o.lastSz) && sentlen(o.lines) == old(sentlen(o.lines))
